@@ -110,12 +110,16 @@ fn corpus_shapes(thorough: bool) -> Vec<(&'static str, Vec<Tree>)> {
         ("par-with-finals", vec![leaf(), tr(K::P, vec![tr(K::S, vec![leaf(), fin()]), tr(K::S, vec![leaf(), fin()])])]),
         ("par-in-par-with-final", vec![leaf(), tr(K::P, vec![tr(K::P, vec![leaf(), leaf()]), tr(K::S, vec![leaf(), fin()])])]),
         ("final-region-then-par", vec![leaf(), tr(K::P, vec![tr(K::S, vec![leaf(), fin()]), tr(K::P, vec![tr(K::S, vec![leaf(), fin()]), leaf()])])]),
+        // a compound state (with its own final) nested inside a region, next to a region with a final: a final that
+        // is not a CHILD of the region must not make the region count as done
+        ("nested-final-in-region", vec![leaf(), tr(K::P, vec![tr(K::S, vec![tr(K::S, vec![leaf(), fin()]), leaf()]), tr(K::S, vec![leaf(), fin()])])]),
+        // a compound state strictly inside one region (history parents at every level of it)
+        ("compound-regions-deep", vec![leaf(), tr(K::P, vec![tr(K::S, vec![tr(K::S, vec![leaf(), leaf()]), leaf()]), reg()])]),
     ];
     if thorough {
         v.push(("par-in-par", vec![leaf(), tr(K::P, vec![reg(), tr(K::P, vec![reg(), reg()])])]));
         v.push(("par3", vec![leaf(), tr(K::P, vec![reg(), reg(), reg()])]));
         v.push(("chain4", vec![leaf(), tr(K::S, vec![tr(K::S, vec![tr(K::S, vec![leaf(), leaf()]), leaf()]), leaf()])]));
-        v.push(("compound-regions-deep", vec![leaf(), tr(K::P, vec![tr(K::S, vec![tr(K::S, vec![leaf(), leaf()]), leaf()]), reg()])]));
     }
     v
 }
@@ -132,10 +136,13 @@ fn family_corpus(thorough: bool, hist: u8, opts: &Opts, sink: Sink) {
             variants.push(("nohist".into(), base_doc(&f, &[])));
         }
         for o in inner_ordinals(&f) {
-            if hist == 2 {
+            if hist == 2 || (!thorough && name == "nested-final-in-region") {
                 break;
             }
             for deep in [false, true] {
+                if !thorough && !deep && name == "compound-regions-deep" {
+                    continue;
+                }
                 let d0 = base_doc(&f, &[(o, deep)]);
                 let h = d0.nodes.iter().position(|n| n.kind.is_history()).unwrap();
                 for (k, t) in history_defaults(&d0, h).into_iter().enumerate() {
@@ -145,6 +152,30 @@ fn family_corpus(thorough: bool, hist: u8, opts: &Opts, sink: Sink) {
                     let mut d = d0.clone();
                     set_history_default(&mut d, h, t);
                     variants.push((format!("h{}{}>{}", o, if deep { "d" } else { "s" }, d0.nodes[t].name), d));
+                }
+            }
+        }
+        // initial specifications with several targets (in different regions of a parallel below the state): on the
+        // document root and on every compound state, as attribute and as <initial> element
+        if hist != 1 {
+            let d0 = base_doc(&f, &[]);
+            for n in 0..d0.nodes.len() {
+                if !(n == 0 || d0.is_compound(n)) {
+                    continue;
+                }
+                let multi: Vec<Vec<Nx>> = initial_specs(&d0, n, true).into_iter().filter(|s| s.len() > 1).collect();
+                for (k, spec) in multi.iter().enumerate() {
+                    // quick: on the two par2x2 shapes, the specs that name a non-default child in the LAST region
+                    if !thorough && (k % 3 != 2 || !name.starts_with("par2x2")) {
+                        continue;
+                    }
+                    let mut d = d0.clone();
+                    if n == 0 || k % 2 == 0 {
+                        d.nodes[n].initial_attr = Some(spec.clone());
+                    } else {
+                        d.nodes[n].initial_elem = Some((spec.clone(), vec![Stmt::Mark(vec!["init".into(), d0.nodes[n].name.clone()])]));
+                    }
+                    variants.push((format!("init{}#{}", n, k), d));
                 }
             }
         }
@@ -354,6 +385,8 @@ fn family_queues(thorough: bool, opts: &Opts, sink: Sink) {
         (vec!["x".into()], None),
         (vec!["y".into()], None),
         (vec![], Some(Expr::VarLt("v".into(), 2))),
+        // eventless, enabled by the internal event that was dequeued last (also one that enabled nothing else)
+        (vec![], Some(Expr::EvNameEq("x".into()))),
         (vec!["error.execution".into()], None),
     ];
     let mut producers: Vec<Vec<Stmt>> = vec![
@@ -367,11 +400,17 @@ fn family_queues(thorough: bool, opts: &Opts, sink: Sink) {
     if !thorough {
         producers.truncate(5);
     }
-    let ntrig = if thorough { triggers.len() } else { 4 };
+    // quick tier: the trigger menu without the second named internal event
+    let menu: Vec<usize> = if thorough { (0..triggers.len()).collect() } else { vec![0, 1, 3, 4] };
     let mut idx = 0usize;
-    for t1 in 0..ntrig {
-        for t2 in 0..ntrig {
-            for t3 in 0..ntrig {
+    for &t1 in &menu {
+        for &t2 in &menu {
+            for &t3 in &menu {
+                if t1 == 4 && t2 == 4 && t3 == 4 {
+                    // a ring of eventless transitions that all stay enabled while _event is 'x' never ends its
+                    // macrostep: a livelock of the document, not of the interpreter
+                    continue;
+                }
                 for p1 in 0..producers.len() {
                     for p2 in 0..producers.len() {
                         for pe in 0..producers.len() {
@@ -389,7 +428,7 @@ fn family_queues(thorough: bool, opts: &Opts, sink: Sink) {
                             let mk = |d: &mut Doc, src: Nx, tgt: Nx, t: usize, p: usize| {
                                 let (ev, cond) = triggers[t].clone();
                                 let mut content = vec![Stmt::Mark(vec!["t".into(), d.nodes[src].name.clone()])];
-                                if ev.is_empty() {
+                                if matches!(cond, Some(Expr::VarLt(..))) {
                                     content.push(Stmt::Assign("v".into(), Expr::VarPlus("v".into(), 1)));
                                 }
                                 content.extend(producers[p].clone());
@@ -1136,6 +1175,32 @@ fn families(ctx: &Ctx, sink: Sink) {
                 }
             };
             family_content(thorough, &o, &mut sub);
+            // non-strict sub-family: a failing leaf in one block, and in every LATER block a script that is only
+            // legal in non-strict mode (creates an implicit global): an error must not change how later blocks run
+            for (ln, l) in c08_leaves() {
+                for h in 0..6usize {
+                    let mut d = c08_doc(vec![mk("pre"), l.clone(), mk("post")], h);
+                    d.datamodel = "ecmascript".into();
+                    let patch = |blocks: &mut Vec<Block>| {
+                        for b in blocks.iter_mut() {
+                            let hit = matches!(b.first(), Some(Stmt::Mark(a)) if a.first().map(|x| x.ends_with("2nd-block")).unwrap_or(false));
+                            if hit {
+                                b.insert(0, Stmt::ScriptText("zz9 = 41".into()));
+                            }
+                        }
+                    };
+                    for n in 0..d.nodes.len() {
+                        patch(&mut d.nodes[n].onentry);
+                        patch(&mut d.nodes[n].onexit);
+                    }
+                    sink(Item {
+                        label: format!("ecmascript nonstrict later-block {} host{}", ln, h),
+                        doc: d,
+                        opts: o.clone(),
+                        sig_hint: format!(":leaf:{}", ln),
+                    });
+                }
+            }
         }
         "C08" => {
             let o = Opts {
@@ -1884,9 +1949,16 @@ fn worker(ctx: &Ctx) {
             }
             return;
         }
+        let nonstrict = item.label.starts_with("ecmascript nonstrict");
+        if nonstrict {
+            vh::runner::ECMA_STRICT.store(false, std::sync::atomic::Ordering::Relaxed);
+        }
         let mut ex = Explorer::new(&item.doc, item.opts.clone());
         ex.sig_hint = item.sig_hint.clone();
         ex.explore();
+        if nonstrict {
+            vh::runner::ECMA_STRICT.store(true, std::sync::atomic::Ordering::Relaxed);
+        }
         let r = &ex.rep;
         out.add("documents", 1);
         out.add("states", r.states as u64);
